@@ -33,7 +33,8 @@ def hostile_family(seed, n):
                         it["help"] = it["help"] + pe(" " + HOSTILE_TEXT[k % len(HOSTILE_TEXT)])
                         k += 1
                 if f.get("group_help") and rnd.random() < 0.5:
-                    f["group_help"] = f["group_help"] + pe(rnd.choice(["\\fB", " .x", "<u>", "'q"]))
+                    # (also a header of two lines: bpaf renders the first line as the title, the rest as a block)
+                    f["group_help"] = f["group_help"] + pe(rnd.choice(["\\fB", " .x", "<u>", "'q", "\nsecond line", "\n.second <line>"]))
             t = lvl["tail"]
             for p in t.get("items", []):
                 if rnd.random() < 0.5:
